@@ -22,7 +22,7 @@ RULE = (
     "back-to-back; sleeps 0-100 ms) and, per sketch, 6 (quick) / 25 (thorough) tapes: button level sequences (held, bouncing, starting pressed or released), "
     "ADC values 0-1023, echo durations with runs of 1-5 timeouts, per-pass jitter 0-200 ms, clock starting at 0 ms, 1 ms, 59 ms or 5 s; "
     "N = 4-10 passes. Models: one digitalRead per button per pass (+1 initial sample in setup), on_click exactly on released->pressed transitions of the "
-    "sampled signal, every is_pressed() equals the pass's sample, click count equals the host Button's for signals that start released; one analogRead per "
+    "sampled signal, every is_pressed() equals the pass's sample, click count equals the host Button's (driven by a provider, by set_pressed before every poll, and by set_pressed with unobserved level changes between polls) for signals that start released; one analogRead per "
     "pot.read() returning that value; distance = echo*0.0343/2 of the first non-zero echo, <=3 trigger pulses per call, fallback to the last good reading / "
     "400, >=60 ms between triggers once millis() is non-zero. Non-trivial = tape with >=2 rising edges and a held stretch, or a timeout followed by a good "
     "echo, or two measurements < 60 ms apart. distinct = distinct (sketch, tape)."
@@ -124,14 +124,23 @@ def tape(draw, n):
     return {"digital": levels, "analog": analog, "pulse": pulse, "jitter": jitter, "t0_us": t0}
 
 
-def host_clicks(seq):
+def host_clicks(seq, mode="provider"):
+    """clicks of the host Button per sample. mode: the signal comes from a provider, from set_pressed(level) right before every poll,
+    or from set_pressed with an unobserved opposite level set and withdrawn between two polls ("glitch": not part of the sampled signal)."""
     from Reduino.Sensors import Button
 
     clicks = []
     it = iter(seq)
-    b = Button(1, on_click=lambda: clicks.append(1), state_provider=lambda: bool(next(it)))
+    if mode == "provider":
+        b = Button(1, on_click=lambda: clicks.append(1), state_provider=lambda: bool(next(it)))
+    else:
+        b = Button(1, on_click=lambda: clicks.append(1))
     per = []
-    for _ in seq:
+    for s in seq:
+        if mode != "provider":
+            if mode == "glitch":
+                b.set_pressed(not s)
+            b.set_pressed(bool(s))
         n0 = len(clicks)
         b.is_pressed()
         per.append(len(clicks) - n0)
@@ -182,9 +191,11 @@ def model_check(sk, tp, n, trace):
         # host agreement for signals that start released
         if i in sk["cb"] and init and init[0] == 0 and len(samples) == len(loops):
             fw_clicks = [sum(1 for _, k, a in ev if k == "SER" and a == f"@click{i}") for ev in loops]
-            hc = host_clicks(samples)
-            if fw_clicks != hc:
-                fails.append(("button-clicks-differ-from-host", hc, fw_clicks))
+            for mode in ("provider", "set", "glitch"):
+                hc = host_clicks(samples, mode)
+                if fw_clicks != hc:
+                    fails.append((f"button-clicks-differ-from-host:{mode}", hc, fw_clicks))
+                    break
     # ---------------- potentiometers: every read is one analogRead whose value is printed
     for i in range(sk["npot"]):
         pin = POT_PINS[i][1]
